@@ -574,54 +574,57 @@ func (e *Engine) fork(st *State, alts []Alt) {
 				continue
 			}
 		}
-		// byte-domain fast path (sound pruning; feasibility only for independent variables)
+		// byte-domain fast path (sound pruning; feasibility only for independent variables),
+		// compositional over and/or/not of single-byte-variable atoms
 		if !e.pure {
-			if xv := e.ctx.unaryByteVar(a.cond); xv != nil {
-				d := st.domOf(xv)
-				sd := e.ctx.satisfying(a.cond, xv, d)
-				verdict := Unknown
-				var fm map[string]uint64
-				if sd.empty() {
-					verdict = Unsat
-				} else if !d.mixed && st.model != nil {
-					verdict = Sat
-					fm = make(map[string]uint64, len(st.model)+1)
-					for k, v := range st.model {
-						fm[k] = v
-					}
-					for v := 0; v < 256; v++ {
-						if sd.has(v) {
-							fm[xv.name] = uint64(v)
-							break
-						}
-					}
-				}
-				if verdict != Unknown {
-					// seeded cross-check against the solver
-					e.rng = e.rng*6364136223846793005 + 1442695040888963407
-					if (e.rng>>33)%64 == 0 {
-						e.fastChecked++
-						if r := e.solver.Check(a.cond); r != verdict && r != Unknown {
-							e.stats.Unsupported["fast-path/solver disagreement"]++
-							if os.Getenv("SYMGO_DEBUG") != "" {
-								fmt.Fprintf(os.Stderr, "DISAGREE fast=%v solver=%v cond=%s dom=%x mixed=%v sd=%x\n", verdict, r, a.cond, d.bits, d.mixed, sd.bits)
-								for _, t := range st.pcList() {
-									fmt.Fprintf(os.Stderr, "    pc %s\n", t)
-								}
+			verdict, assigns := e.quickSat(st, a.cond, 0)
+			if verdict == Sat && st.model == nil {
+				verdict = Unknown // no base model to extend: ask the solver
+			}
+			if verdict != Unknown {
+				// seeded cross-check against the solver
+				e.rng = e.rng*6364136223846793005 + 1442695040888963407
+				if (e.rng>>33)%64 == 0 {
+					e.fastChecked++
+					if r := e.solver.Check(a.cond); r != verdict && r != Unknown {
+						e.stats.Unsupported["fast-path/solver disagreement"]++
+						if os.Getenv("SYMGO_DEBUG") != "" {
+							fmt.Fprintf(os.Stderr, "DISAGREE fast=%v solver=%v cond=%s\n", verdict, r, a.cond)
+							for _, t := range st.pcList() {
+								fmt.Fprintf(os.Stderr, "    pc %s\n", t)
 							}
 						}
 					}
-					if verdict == Unsat {
-						e.fastInfeas++
-						e.stats.Infeasible++
-					} else {
-						e.fastFeas++
-						feas = append(feas, i)
-						models = append(models, fm)
-					}
-					continue
 				}
+				if verdict == Unsat {
+					e.fastInfeas++
+					e.stats.Infeasible++
+				} else {
+					e.fastFeas++
+					fm := make(map[string]uint64, len(st.model)+len(assigns))
+					for k, v := range st.model {
+						fm[k] = v
+					}
+					for k, v := range assigns {
+						fm[k.name] = v
+					}
+					feas = append(feas, i)
+					models = append(models, fm)
+				}
+				continue
 			}
+		}
+		if queryProfile != nil {
+			vs := e.ctx.termVars(a.cond)
+			key := fmt.Sprintf("vars=%d", len(vs))
+			if len(vs) == 1 {
+				d := st.domOf(vs[0])
+				key += fmt.Sprintf(" w=%d mixed=%v", vs[0].w, d.mixed)
+			}
+			f := st.top()
+			forkMu.Lock()
+			queryProfile[key+" @"+f.fn.Name()]++
+			forkMu.Unlock()
 		}
 		r, m := e.solver.CheckModel(a.cond, e.inputVars(st, a.cond))
 		switch r {
@@ -673,6 +676,92 @@ func (e *Engine) fork(st *State, alts []Alt) {
 
 type forkedSignal struct{}
 
+// quickSat decides pc ∧ t from the byte domains alone when it can.
+//   atom over one 8-bit variable x: S = {v in dom(x) | t(v)}; S empty => Unsat (dom is an
+//     over-approximation); S non-empty and x occurs in no non-unary constraint => Sat
+//   and(a,b): any Unsat => Unsat; both Sat over disjoint variable sets => Sat
+//   or(a,b):  any Sat => Sat; both Unsat => Unsat
+//   not:      pushed inwards (De Morgan)
+// anything else: Unknown (ask the solver).
+func (e *Engine) quickSat(st *State, t *Term, depth int) (Result, map[*Term]uint64) {
+	if t.IsTrue() {
+		return Sat, nil
+	}
+	if t.IsFalse() {
+		return Unsat, nil
+	}
+	if xv := e.ctx.unaryByteVar(t); xv != nil {
+		d := st.domOf(xv)
+		sd := e.ctx.satisfying(t, xv, d)
+		if sd.empty() {
+			return Unsat, nil
+		}
+		if d.mixed {
+			return Unknown, nil
+		}
+		for v := 0; v < 256; v++ {
+			if sd.has(v) {
+				return Sat, map[*Term]uint64{xv: uint64(v)}
+			}
+		}
+	}
+	if depth > 24 {
+		return Unknown, nil
+	}
+	switch t.op {
+	case OpAnd:
+		ra, ma := e.quickSat(st, t.args[0], depth+1)
+		if ra == Unsat {
+			return Unsat, nil
+		}
+		rb, mb := e.quickSat(st, t.args[1], depth+1)
+		if rb == Unsat {
+			return Unsat, nil
+		}
+		if ra == Sat && rb == Sat {
+			va, vb := e.ctx.termVars(t.args[0]), e.ctx.termVars(t.args[1])
+			for _, x := range va {
+				for _, y := range vb {
+					if x == y {
+						return Unknown, nil
+					}
+				}
+			}
+			out := make(map[*Term]uint64, len(ma)+len(mb))
+			for k, v := range ma {
+				out[k] = v
+			}
+			for k, v := range mb {
+				out[k] = v
+			}
+			return Sat, out
+		}
+		return Unknown, nil
+	case OpOr:
+		ra, ma := e.quickSat(st, t.args[0], depth+1)
+		if ra == Sat {
+			return Sat, ma
+		}
+		rb, mb := e.quickSat(st, t.args[1], depth+1)
+		if rb == Sat {
+			return Sat, mb
+		}
+		if ra == Unsat && rb == Unsat {
+			return Unsat, nil
+		}
+		return Unknown, nil
+	case OpNot:
+		in := t.args[0]
+		switch in.op {
+		case OpAnd:
+			return e.quickSat(st, e.ctx.Or(e.ctx.Not(in.args[0]), e.ctx.Not(in.args[1])), depth+1)
+		case OpOr:
+			return e.quickSat(st, e.ctx.And(e.ctx.Not(in.args[0]), e.ctx.Not(in.args[1])), depth+1)
+		}
+	}
+	return Unknown, nil
+}
+
 // forkFresh forks on the value of a fresh (unconstrained) variable: every alternative is
 // feasible by construction, so no solver query is needed; models are extended accordingly.
 func (e *Engine) forkFresh(st *State, v *Term, vals []uint64, alts []Alt) {
@@ -722,6 +811,8 @@ func (e *Engine) forkFresh(st *State, v *Term, vals []uint64, alts []Alt) {
 
 var deadline time.Time
 
+var queryProfile map[string]int
+
 var forkSites map[string]int
 var forkMu sync.Mutex
 
@@ -729,9 +820,29 @@ func init() {
 	if os.Getenv("SYMGO_FORKSITES") != "" {
 		forkSites = map[string]int{}
 	}
+	if os.Getenv("SYMGO_QUERYPROFILE") != "" {
+		queryProfile = map[string]int{}
+	}
 }
 
 func dumpForkSites() {
+	if queryProfile != nil {
+		type kv struct {
+			k string
+			v int
+		}
+		var l []kv
+		for k, v := range queryProfile {
+			l = append(l, kv{k, v})
+		}
+		sort.Slice(l, func(i, j int) bool { return l[i].v > l[j].v })
+		for i, x := range l {
+			if i >= 25 {
+				break
+			}
+			fmt.Fprintf(os.Stderr, "query %8d %s\n", x.v, x.k)
+		}
+	}
 	if forkSites == nil {
 		return
 	}
